@@ -20,25 +20,32 @@ from vlib.runner import Engine, Violation, exception_signature
 
 PROPERTY = 'C08'
 RULE = (
-    'a well-formed announcing UPDATE (IPv4 NLRI field and/or MP_REACH) with exactly one corruption of one attribute. Enumerated grid: every attribute type the '
-    'reference models (ORIGIN .. LARGE_COMMUNITIES, PMSI_TUNNEL, AIGP, AS4_PATH, AS4_AGGREGATOR, MP_REACH, MP_UNREACH, one unknown optional transitive) x '
-    '{value one byte short / one byte long / empty, length field alone -1 / +1, declared length swallowing the rest of the block, declared length past the end of the block '
-    '(+1, +200), optional bit flipped, transitive bit flipped, extended-length bit without a 2-byte length, per-type invalid values, block cut inside the header / inside the value, '
-    'duplicate (after / at the end, other value)} x {IPv4 NLRI field, MP_REACH} x 5 sessions (asn4 on/off x ADD-PATH on/off, one eBGP); Hypothesis adds random C02 base messages, '
-    'random targets and random corruption parameters (cut position, overrun size, random value bytes, byte flips). The routes are first announced well-formed, then the corrupted '
-    'UPDATE goes through the real Protocol.read_message (fake connection, API sink) and the real UpdateHandler; observers: JSON v6, JSON v4, Adj-RIB-In. '
-    'Oracle: vlib/c08_ref.py (independent RFC 7606 walk of the same bytes). Non-trivial = outer UPDATE framing still valid and the reference finds at least one fault'
+    'a well-formed announcing UPDATE (IPv4 NLRI field and/or MP_REACH) with exactly one corruption of one attribute. Enumerated grid (5883 cases): 19 attribute types '
+    '(ORIGIN, AS_PATH, NEXT_HOP, MED, LOCAL_PREF, ATOMIC_AGGREGATE, AGGREGATOR, COMMUNITIES, ORIGINATOR_ID, CLUSTER_LIST, MP_REACH, MP_UNREACH, EXTENDED_COMMUNITIES, AS4_PATH, '
+    'AS4_AGGREGATOR, PMSI_TUNNEL, AIGP, LARGE_COMMUNITIES, one unknown optional transitive) all present in one base message x {value one byte short / one byte long / zero length, '
+    'length field alone -1 / +1, declared length swallowing the rest of the block, declared length past the end of the block (+1, +200; and +1, +2 with the attribute moved last and whole), '
+    'Optional bit flipped, Transitive bit flipped, both, extended-length bit without a 2-byte length, per-type invalid values (ORIGIN 3/255, segment type 0/5, segment count overrun / zero / 255, '
+    'segment underrun, NEXT_HOP 3/5/16, community lengths off the multiple, AGGREGATOR of the other AS width, AIGP TLV lengths, MP next-hop length 0/5/+1, NLRI mask 200, MP header only), '
+    'block cut inside the header / inside the value, duplicate (right after / at the end, other value)} x {IPv4 NLRI field, MP_REACH sorted, MP_REACH first, both} x 5 sessions '
+    '(asn4 on/off x ADD-PATH on/off, one eBGP); plus a mandatory attribute swallowed whole by an unknown one, plus labelled-unicast NLRI shorter than a label. Hypothesis adds random C02 base '
+    'messages (all IP families, permuted order, forced extended length), random targets and random parameters (cut position, overrun size, random value bytes, byte flips, length deltas). '
+    'The routes are first announced well-formed; then the corrupted UPDATE goes through the real Protocol.read_message (fake connection, API sink) and, when it comes back as an UPDATE, '
+    'the real UpdateHandler. Observers: JSON v6, JSON v4, Adj-RIB-In (routes re-stored / removed / untouched, and their attributes). '
+    'Oracle: vlib/c08_ref.py, an independent RFC 7606 walk of the same bytes. Non-trivial = outer UPDATE framing still valid and the reference finds at least one fault'
 )
 ASSUMPTIONS = [
+    'signatures name the clause, what the parser itself recorded (marked-withdraw / marked-discard / unmarked: read from the attribute collection only to bucket root causes, never for the verdict), '
+    'the attribute, for unmarked cases the corruption kind, and what Adj-RIB-In did (rib-stored / rib-unchanged / rib-removed)',
     'vlib/c08_ref.py is the RFC 7606 reading: treat-as-withdraw for ORIGIN, AS_PATH, NEXT_HOP, MED, LOCAL_PREF, COMMUNITIES, ORIGINATOR_ID, CLUSTER_LIST, EXTENDED_COMMUNITIES, LARGE_COMMUNITIES '
     '(RFC 8092); attribute discard for ATOMIC_AGGREGATE, AGGREGATOR, AS4_PATH, AS4_AGGREGATOR (RFC 6793 6), AIGP (RFC 7311 3.2); session reset for a malformed or repeated MP_REACH / MP_UNREACH',
     'a reaction stronger than the RFC asks (withdraw instead of discard, reset instead of withdraw) is accepted; a session reset must carry error code 3 (UPDATE Message Error), any subcode',
     'framing errors of the attribute list (RFC 7606 4: declared length past the Total Attribute Length, fewer than 3/4 octets left): treat-as-withdraw and session reset are both accepted; under '
     'treat-as-withdraw only the NLRI that can be located (NLRI field, MP_REACH delimited before the error) must be reported withdrawn',
     'wrong Optional/Transitive bits: treat-as-withdraw for the treat-as-withdraw class (3.c); discard or withdraw for the discard class, PMSI_TUNNEL and AIGP; withdraw or reset for MP_REACH / MP_UNREACH whose content is readable',
-    'PMSI_TUNNEL has no RFC 7606 class for IP routes: discard, withdraw and reset are all accepted, only "announced with a misparsed pmsi" is refused',
+    'PMSI_TUNNEL has no RFC 7606 class for IP routes: discard, withdraw and reset are all accepted; only a value shorter than its 5 fixed octets counts as malformed (the tunnel identifier is opaque here)',
     'LOCAL_PREF / ORIGINATOR_ID / CLUSTER_LIST from an external peer (7.5, 7.9, 7.10) and a malformed NEXT_HOP next to MP_REACH only: discard and withdraw both accepted',
-    'an unknown attribute with the Optional bit clear is an unrecognised well-known attribute (RFC 4271 6.3): session reset expected',
+    'an unknown attribute with the Optional bit clear is an unrecognised well-known attribute (RFC 4271 6.3, not revised by RFC 7606): session reset expected; when it shows up behind an '
+    'earlier fault (a wrong length field shifts every boundary after it) treat-as-withdraw is taken too',
     'dropping the UPDATE as a whole (nothing on the API, nothing stored, nothing withdrawn) is tolerated only for a malformed attribute of the discard class (class outcome:ignored-whole-update)',
     'every attribute after the first of a repeated non-MP attribute is discarded (3.g), the first one must be the one reported',
     'LOCAL_PREF is not demanded as mandatory (the C02 generator of well-formed messages leaves it out); ORIGIN / AS_PATH (/ NEXT_HOP with an NLRI field) swallowed by an over-long neighbour make the UPDATE treat-as-withdraw (3.d)',
@@ -532,8 +539,11 @@ def rib_full(neighbor) -> dict:
         fam = (int(nlri.afi), int(nlri.safi))
         text = nlri.json()
         item = json.loads('{' + text + '}' if not text.lstrip().startswith('{') else text)
-        doc = json.dumps({'neighbor': {'message': {'update': {'attribute': json.loads('{' + route.attributes.json() + '}')}}}})
-        attrs = c02.observed_from_json(doc)['attrs']
+        try:
+            doc = json.dumps({'neighbor': {'message': {'update': {'attribute': json.loads('{' + route.attributes.json() + '}')}}}})
+            attrs = c02.observed_from_json(doc)['attrs']
+        except (ValueError, KeyError, TypeError) as exc:
+            raise Violation(f'rib:attributes-unusable:{type(exc).__name__}', f'{exc!r} in the attributes of {nlri}') from None
         at = json.loads(doc)['neighbor']['message']['update']['attribute']
         for k in EXTRA_KEYS:
             if k in at:
